@@ -6,9 +6,9 @@ From Centro Require Import Model.MaskFlow.
 Import ListNotations.
 
 (* library symbols (index: name) *)
-(* 0: all; 1: not; 2: copy; 3: needs_ranking; 4: take; 5: rank_order.translation; 6: gather; 7: _filter.median_filter; 8: scatter; 9: rank_order.ranks; 10: ascontiguousarray; 11: any; 12: has_greater_structure_neighbour; 13: one_pixel_per_component(edt,label,rank_order,maximum_position); 14: or; 15: lt; 16: min; 17: gt; 18: max; 19: index; 20: unpack1; 21: rank_order; 22: unpack0; 23: cropiradius:-iradius,iradius:-iradius; 24: grey_erosion; 25: setsliceiradius:-iradius,iradius:-iradius; 26: grey_dilation; 27: sub; 28: max_axis0; 29: min_axis0; 30: sqrt; 31: add; 32: pow; 33: abs; 34: convolve3x3; 35: mult; 36: shift(-1,+1); 37: shift(+1,+1); 38: eq; 39: label; 40: gte; 41: div; 42: function; 43: lte; 44: shift(+1,-1); 45: logical_or; 46: shift(+1,+0); 47: shift(-1,+0); 48: shift(+0,-1); 49: shift(+0,+1); 50: shift(-1,-1); 51: setslice1:; 52: zeros; 53: fix; 54: sum; 55: arange; 56: convolve; 57: gaussian_filter; 58: kernel; 59: array; 60: count_nonzero; 61: opaque_expression; 62: lstsq; 63: transpose; 64: loop:m; 65: cropymin+y:ymax+y,xmin+x:xmax+x; 66: loop:a; 67: len; 68: unique; 69: astype; 70: maximum; 71: convex_hull_transform; 72: floor; 73: minimum; 74: cumsum; 75: indexed_store; 76: shape_of; 77: convex_hull_ijv; 78: column_stack; 79: loop:first_i; 80: ones; 81: slice; 82: loop:first_j; 83: loop:first_levels; 84: unpack2; 85: get_line_pts; 86: crop1:; 87: lexsort; 88: unpack3; 89: hstack; 90: bitor; 91: noteq; 92: crop:-1; 93: bitand; 94: neg; 95: table_lookup; 96: index_set; 97: loop:index_i; 98: prepare_for_index_lookup; 99: loop:index_j; 100: skeletonize_loop; 101: distance_transform_edt *)
+(* 0: all; 1: not; 2: copy; 3: needs_ranking; 4: take; 5: rank_order.translation; 6: gather; 7: _filter.median_filter; 8: scatter; 9: rank_order.ranks; 10: ascontiguousarray; 11: any; 12: has_greater_structure_neighbour; 13: one_pixel_per_component(edt,label,rank_order,maximum_position); 14: or; 15: lt; 16: min; 17: gt; 18: max; 19: index; 20: unpack1; 21: rank_order; 22: unpack0; 23: cropiradius:-iradius,iradius:-iradius; 24: grey_erosion; 25: setsliceiradius:-iradius,iradius:-iradius; 26: grey_dilation; 27: sub; 28: max_axis0; 29: min_axis0; 30: sqrt; 31: add; 32: pow; 33: abs; 34: convolve3x3; 35: mult; 36: shift(-1,+1); 37: shift(+1,+1); 38: eq; 39: label; 40: gte; 41: div; 42: function; 43: lte; 44: shift(+1,-1); 45: logical_or; 46: shift(+1,+0); 47: shift(-1,+0); 48: shift(+0,-1); 49: shift(+0,+1); 50: shift(-1,-1); 51: setslice1:; 52: zeros; 53: fix; 54: sum; 55: arange; 56: convolve; 57: gaussian_filter; 58: kernel; 59: array; 60: count_nonzero; 61: opaque_expression; 62: lstsq; 63: transpose; 64: loop:m; 65: cropymin+y:ymax+y,xmin+x:xmax+x; 66: loop:a; 67: len; 68: unique; 69: astype; 70: maximum; 71: convex_hull_transform; 72: floor; 73: minimum; 74: cumsum; 75: indexed_store; 76: shape_of; 77: convex_hull_ijv; 78: column_stack; 79: loop:first_i; 80: ones; 81: slice; 82: loop:first_j; 83: loop:first_levels; 84: unpack2; 85: get_line_pts; 86: crop1:; 87: lexsort; 88: unpack3; 89: hstack; 90: bitor; 91: noteq; 92: crop:-1; 93: bitand; 94: neg; 95: maximum_position; 96: flat_add; 97: distance_transform_edt; 98: permutation; 99: product; 100: float; 101: table_lookup; 102: index_set; 103: loop:index_i; 104: prepare_for_index_lookup; 105: loop:index_j; 106: skeletonize_loop *)
 (* constants (index: name) *)
-(* 0: zeros_uint8; 1: zeros(..); 2: ones(..); 3: 1; 4: cmp; 5: $clip; 6: unpacked; 7: expr; 8: True; 9: is; 10: zeros; 11: permutation(..) *)
+(* 0: zeros_uint8; 1: True; 2: undefined; 3: zeros(..); 4: ones(..); 5: 1; 6: cmp; 7: $clip; 8: unpacked; 9: expr; 10: not(..); 11: is; 12: $iterations; 13: zeros; 14: permutation(..); 15: $ordering *)
 Definition sym_all : nat := 0.
 Definition sym_not : nat := 1.
 Definition sym_copy : nat := 2.
@@ -99,13 +99,18 @@ Definition sym_noteq : nat := 91.
 Definition sym_crop_1 : nat := 92.
 Definition sym_bitand : nat := 93.
 Definition sym_neg : nat := 94.
-Definition sym_table_lookup : nat := 95.
-Definition sym_index_set : nat := 96.
-Definition sym_loop_index_i : nat := 97.
-Definition sym_prepare_for_index_lookup : nat := 98.
-Definition sym_loop_index_j : nat := 99.
-Definition sym_skeletonize_loop : nat := 100.
-Definition sym_distance_transform_edt : nat := 101.
+Definition sym_maximum_position : nat := 95.
+Definition sym_flat_add : nat := 96.
+Definition sym_distance_transform_edt : nat := 97.
+Definition sym_permutation : nat := 98.
+Definition sym_product : nat := 99.
+Definition sym_float : nat := 100.
+Definition sym_table_lookup : nat := 101.
+Definition sym_index_set : nat := 102.
+Definition sym_loop_index_i : nat := 103.
+Definition sym_prepare_for_index_lookup : nat := 104.
+Definition sym_loop_index_j : nat := 105.
+Definition sym_skeletonize_loop : nat := 106.
 
 (* median_filter_unmasked_minmax (20 DAG nodes, 65 as a tree):  Select (Pw copy [Img]) (Glob all [Pw not [MaskE]]) (Select (Glob take [Glob rank_order.translation [Glob gather [Select (Img) (MaskE) (FalseC); MaskE]]; Glob _filter.median_filter [Select (Glob scatter [Select (Glob rank_order.ranks [Glob gather [Select (Img) (MaskE) (FalseC); MaskE]]) (Glob needs_ranking [Img]) (Glob gather [Select (Img) (MaskE) (FalseC); MaskE]); MaskE]) (MaskE) (Const<zeros_uint8>); Pw ascontiguousarray [MaskE]]]) (Glob needs_ranking [Img]) (Glob _filter.median_filter [Select (Glob scatter [Select (Glob rank_order.ranks [Glob gather [Select (Img) (MaskE) (FalseC); MaskE]])  ... *)
 Definition prog_median_filter_unmasked_minmax : prog :=
@@ -123,60 +128,62 @@ Definition prog_regional_maximum_unmasked_ties : prog :=
 Example regional_maximum_unmasked_ties_rejected : accepts prog_regional_maximum_unmasked_ties = false.
 Proof. vm_compute. reflexivity. Qed.
 
-(* median_filter (25 DAG nodes, 54 as a tree):  Select (Pw copy [Img]) (Glob all [Pw not [MaskE]]) (Select (Glob index [Glob unpack1 [Glob rank_order [Glob gather [Select (Img) (MaskE) (FalseC); MaskE]]]; Glob _filter.median_filter [Select (Glob scatter [Glob unpack0 [Glob rank_order [Glob gather [Select (Img) (MaskE) (FalseC); MaskE]]]; MaskE]) (MaskE) (Const<zeros(..)>); MaskE]]) (Pw or [Pw lt [Glob min [Glob gather [Select (Img) (MaskE) (FalseC); MaskE]]]; Pw gt [Glob max [Glob gather [Select (Img) (MaskE) (FalseC); MaskE]]]]) (Glob _filter.median_filter [Select (Img) (MaskE) (Const<zeros(..)>); MaskE])) *)
+(* median_filter (28 DAG nodes, 133 as a tree):  Select (Pw copy [Img]) (Glob all [Pw not [MaskE]]) (Select (Glob index [Select (Glob unpack1 [Glob rank_order [Glob gather [Select (Img) (MaskE) (FalseC); MaskE]]]) (Pw or [Pw lt [Glob min [Glob gather [Select (Img) (MaskE) (FalseC); MaskE]]]; Pw gt [Glob max [Glob gather [Select (Img) (MaskE) (FalseC); MaskE]]]]) (Const<undefined>); Glob _filter.median_filter [Select (Glob scatter [Select (Glob unpack0 [Glob rank_order [Glob gather [Select (Img) (MaskE) (FalseC); MaskE]]]) (Pw or [Pw lt [Glob min [Glob gather [Select (Img) (MaskE) (FalseC); MaskE]]]; Pw gt [Glob max [Glob gather [Select (Img) ... *)
 Definition prog_median_filter : prog :=
   ([(Glob 6 [(Select Img MaskE FalseC); MaskE]);
-    (Glob 21 [(Ref 0)])],
-   (Select (Pw 2 [Img]) (Glob 0 [(Pw 1 [MaskE])]) (Select (Glob 19 [(Glob 20 [(Ref 1)]); (Glob 7 [(Select (Glob 8 [(Glob 22 [(Ref 1)]); MaskE]) MaskE (Const 1)); MaskE])]) (Pw 14 [(Pw 15 [(Glob 16 [(Ref 0)])]); (Pw 17 [(Glob 18 [(Ref 0)])])]) (Glob 7 [(Select Img MaskE (Const 1)); MaskE])))).
+    (Pw 14 [(Pw 15 [(Glob 16 [(Ref 0)])]); (Pw 17 [(Glob 18 [(Ref 0)])])]);
+    (Glob 21 [(Ref 0)]);
+    (Glob 7 [(Select (Glob 8 [(Select (Glob 22 [(Ref 2)]) (Ref 1) (Ref 0)); MaskE]) MaskE (Const 3)); MaskE])],
+   (Select (Pw 2 [Img]) (Glob 0 [(Pw 1 [MaskE])]) (Select (Glob 19 [(Select (Glob 20 [(Ref 2)]) (Ref 1) (Const 2)); (Ref 3)]) (Select (Const 1) (Ref 1) FalseC) (Ref 3)))).
 Example median_filter_ok : accepts prog_median_filter = true.
 Proof. vm_compute. reflexivity. Qed.
 
 (* grey_erosion (9 DAG nodes, 11 as a tree):  Select (Glob cropiradius:-iradius,iradius:-iradius [Glob grey_erosion [Glob setsliceiradius:-iradius,iradius:-iradius [Const<ones(..)>; Select (Img) (MaskE) (Const<1>)]]]) (MaskE) (Img) *)
 Definition prog_grey_erosion : prog :=
   ([],
-   (Select (Glob 23 [(Glob 24 [(Glob 25 [(Const 2); (Select Img MaskE (Const 3))])])]) MaskE Img)).
+   (Select (Glob 23 [(Glob 24 [(Glob 25 [(Const 4); (Select Img MaskE (Const 5))])])]) MaskE Img)).
 Example grey_erosion_ok : accepts prog_grey_erosion = true.
 Proof. vm_compute. reflexivity. Qed.
 
 (* grey_dilation (9 DAG nodes, 11 as a tree):  Select (Glob cropiradius:-iradius,iradius:-iradius [Glob grey_dilation [Glob setsliceiradius:-iradius,iradius:-iradius [Const<zeros(..)>; Select (Img) (MaskE) (FalseC)]]]) (MaskE) (Img) *)
 Definition prog_grey_dilation : prog :=
   ([],
-   (Select (Glob 23 [(Glob 26 [(Glob 25 [(Const 1); (Select Img MaskE FalseC)])])]) MaskE Img)).
+   (Select (Glob 23 [(Glob 26 [(Glob 25 [(Const 3); (Select Img MaskE FalseC)])])]) MaskE Img)).
 Example grey_dilation_ok : accepts prog_grey_dilation = true.
 Proof. vm_compute. reflexivity. Qed.
 
 (* opening (16 DAG nodes, 31 as a tree):  Select (Glob cropiradius:-iradius,iradius:-iradius [Glob grey_dilation [Glob setsliceiradius:-iradius,iradius:-iradius [Const<zeros(..)>; Select (Select (Glob cropiradius:-iradius,iradius:-iradius [Glob grey_erosion [Glob setsliceiradius:-iradius,iradius:-iradius [Const<ones(..)>; Select (Img) (MaskE) (Const<1>)]]]) (MaskE) (Img)) (MaskE) (FalseC)]]]) (MaskE) (Select (Glob cropiradius:-iradius,iradius:-iradius [Glob grey_erosion [Glob setsliceiradius:-iradius,iradius:-iradius [Const<ones(..)>; Select (Img) (MaskE) (Const<1>)]]]) (MaskE) (Img)) *)
 Definition prog_opening : prog :=
-  ([(Select (Glob 23 [(Glob 24 [(Glob 25 [(Const 2); (Select Img MaskE (Const 3))])])]) MaskE Img)],
-   (Select (Glob 23 [(Glob 26 [(Glob 25 [(Const 1); (Select (Ref 0) MaskE FalseC)])])]) MaskE (Select (Glob 23 [(Glob 24 [(Glob 25 [(Const 2); (Select Img MaskE (Const 3))])])]) MaskE Img))).
+  ([(Select (Glob 23 [(Glob 24 [(Glob 25 [(Const 4); (Select Img MaskE (Const 5))])])]) MaskE Img)],
+   (Select (Glob 23 [(Glob 26 [(Glob 25 [(Const 3); (Select (Ref 0) MaskE FalseC)])])]) MaskE (Select (Glob 23 [(Glob 24 [(Glob 25 [(Const 4); (Select Img MaskE (Const 5))])])]) MaskE Img))).
 Example opening_ok : accepts prog_opening = true.
 Proof. vm_compute. reflexivity. Qed.
 
 (* closing (16 DAG nodes, 31 as a tree):  Select (Glob cropiradius:-iradius,iradius:-iradius [Glob grey_erosion [Glob setsliceiradius:-iradius,iradius:-iradius [Const<ones(..)>; Select (Select (Glob cropiradius:-iradius,iradius:-iradius [Glob grey_dilation [Glob setsliceiradius:-iradius,iradius:-iradius [Const<zeros(..)>; Select (Img) (MaskE) (FalseC)]]]) (MaskE) (Img)) (MaskE) (Const<1>)]]]) (MaskE) (Select (Glob cropiradius:-iradius,iradius:-iradius [Glob grey_dilation [Glob setsliceiradius:-iradius,iradius:-iradius [Const<zeros(..)>; Select (Img) (MaskE) (FalseC)]]]) (MaskE) (Img)) *)
 Definition prog_closing : prog :=
-  ([(Select (Glob 23 [(Glob 26 [(Glob 25 [(Const 1); (Select Img MaskE FalseC)])])]) MaskE Img)],
-   (Select (Glob 23 [(Glob 24 [(Glob 25 [(Const 2); (Select (Ref 0) MaskE (Const 3))])])]) MaskE (Select (Glob 23 [(Glob 26 [(Glob 25 [(Const 1); (Select Img MaskE FalseC)])])]) MaskE Img))).
+  ([(Select (Glob 23 [(Glob 26 [(Glob 25 [(Const 3); (Select Img MaskE FalseC)])])]) MaskE Img)],
+   (Select (Glob 23 [(Glob 24 [(Glob 25 [(Const 4); (Select (Ref 0) MaskE (Const 5))])])]) MaskE (Select (Glob 23 [(Glob 26 [(Glob 25 [(Const 3); (Select Img MaskE FalseC)])])]) MaskE Img))).
 Example closing_ok : accepts prog_closing = true.
 Proof. vm_compute. reflexivity. Qed.
 
 (* white_tophat (18 DAG nodes, 36 as a tree):  Select (Pw sub [Img; Select (Glob cropiradius:-iradius,iradius:-iradius [Glob grey_dilation [Glob setsliceiradius:-iradius,iradius:-iradius [Const<zeros(..)>; Select (Select (Glob cropiradius:-iradius,iradius:-iradius [Glob grey_erosion [Glob setsliceiradius:-iradius,iradius:-iradius [Const<ones(..)>; Select (Img) (MaskE) (Const<1>)]]]) (MaskE) (Img)) (MaskE) (FalseC)]]]) (MaskE) (Select (Glob cropiradius:-iradius,iradius:-iradius [Glob grey_erosion [Glob setsliceiradius:-iradius,iradius:-iradius [Const<ones(..)>; Select (Img) (MaskE) (Const<1>)]]]) (MaskE) (Img))]) (MaskE) (Img) *)
 Definition prog_white_tophat : prog :=
-  ([(Select (Glob 23 [(Glob 24 [(Glob 25 [(Const 2); (Select Img MaskE (Const 3))])])]) MaskE Img)],
-   (Select (Pw 27 [Img; (Select (Glob 23 [(Glob 26 [(Glob 25 [(Const 1); (Select (Ref 0) MaskE FalseC)])])]) MaskE (Ref 0))]) MaskE Img)).
+  ([(Select (Glob 23 [(Glob 24 [(Glob 25 [(Const 4); (Select Img MaskE (Const 5))])])]) MaskE Img)],
+   (Select (Pw 27 [Img; (Select (Glob 23 [(Glob 26 [(Glob 25 [(Const 3); (Select (Ref 0) MaskE FalseC)])])]) MaskE (Ref 0))]) MaskE Img)).
 Example white_tophat_ok : accepts prog_white_tophat = true.
 Proof. vm_compute. reflexivity. Qed.
 
 (* black_tophat (18 DAG nodes, 36 as a tree):  Select (Pw sub [Select (Glob cropiradius:-iradius,iradius:-iradius [Glob grey_erosion [Glob setsliceiradius:-iradius,iradius:-iradius [Const<ones(..)>; Select (Select (Glob cropiradius:-iradius,iradius:-iradius [Glob grey_dilation [Glob setsliceiradius:-iradius,iradius:-iradius [Const<zeros(..)>; Select (Img) (MaskE) (FalseC)]]]) (MaskE) (Img)) (MaskE) (Const<1>)]]]) (MaskE) (Select (Glob cropiradius:-iradius,iradius:-iradius [Glob grey_dilation [Glob setsliceiradius:-iradius,iradius:-iradius [Const<zeros(..)>; Select (Img) (MaskE) (FalseC)]]]) (MaskE) (Img)); Img]) (MaskE) (Img) *)
 Definition prog_black_tophat : prog :=
-  ([(Select (Glob 23 [(Glob 26 [(Glob 25 [(Const 1); (Select Img MaskE FalseC)])])]) MaskE Img)],
-   (Select (Pw 27 [(Select (Glob 23 [(Glob 24 [(Glob 25 [(Const 2); (Select (Ref 0) MaskE (Const 3))])])]) MaskE (Ref 0)); Img]) MaskE Img)).
+  ([(Select (Glob 23 [(Glob 26 [(Glob 25 [(Const 3); (Select Img MaskE FalseC)])])]) MaskE Img)],
+   (Select (Pw 27 [(Select (Glob 23 [(Glob 24 [(Glob 25 [(Const 4); (Select (Ref 0) MaskE (Const 5))])])]) MaskE (Ref 0)); Img]) MaskE Img)).
 Example black_tophat_ok : accepts prog_black_tophat = true.
 Proof. vm_compute. reflexivity. Qed.
 
 (* openlines (19 DAG nodes, 65 as a tree):  Pw sub [Pw max_axis0 [Select (Glob cropiradius:-iradius,iradius:-iradius [Glob grey_dilation [Glob setsliceiradius:-iradius,iradius:-iradius [Const<zeros(..)>; Select (Select (Glob cropiradius:-iradius,iradius:-iradius [Glob grey_erosion [Glob setsliceiradius:-iradius,iradius:-iradius [Const<ones(..)>; Select (Img) (MaskE) (Const<1>)]]]) (MaskE) (Img)) (MaskE) (FalseC)]]]) (MaskE) (Select (Glob cropiradius:-iradius,iradius:-iradius [Glob grey_erosion [Glob setsliceiradius:-iradius,iradius:-iradius [Const<ones(..)>; Select (Img) (MaskE) (Const<1>)]]]) (MaskE) (Img))]; Pw min_axis0 [Select (Glob ... *)
 Definition prog_openlines : prog :=
-  ([(Select (Glob 23 [(Glob 24 [(Glob 25 [(Const 2); (Select Img MaskE (Const 3))])])]) MaskE Img);
-    (Select (Glob 23 [(Glob 26 [(Glob 25 [(Const 1); (Select (Ref 0) MaskE FalseC)])])]) MaskE (Ref 0))],
+  ([(Select (Glob 23 [(Glob 24 [(Glob 25 [(Const 4); (Select Img MaskE (Const 5))])])]) MaskE Img);
+    (Select (Glob 23 [(Glob 26 [(Glob 25 [(Const 3); (Select (Ref 0) MaskE FalseC)])])]) MaskE (Ref 0))],
    (Pw 27 [(Pw 28 [(Ref 1)]); (Pw 29 [(Ref 1)])])).
 Example openlines_ok : accepts prog_openlines = true.
 Proof. vm_compute. reflexivity. Qed.
@@ -229,13 +236,13 @@ Definition prog_roberts : prog :=
     (Glob 6 [(Select Img (Ref 0) FalseC); (Ref 0)]);
     (Pw 27 [(Ref 1); (Glob 6 [(Select (Loc 1 36 Img) (Ref 0) FalseC); (Ref 0)])]);
     (Pw 27 [(Ref 1); (Glob 6 [(Select (Loc 1 37 Img) (Ref 0) FalseC); (Ref 0)])])],
-   (Select (Glob 8 [(Pw 30 [(Pw 31 [(Pw 35 [(Ref 2); (Ref 2)]); (Pw 35 [(Ref 3); (Ref 3)])])]); (Ref 0)]) (Ref 0) (Select (Const 1) (Ref 0) FalseC))).
+   (Select (Glob 8 [(Pw 30 [(Pw 31 [(Pw 35 [(Ref 2); (Ref 2)]); (Pw 35 [(Ref 3); (Ref 3)])])]); (Ref 0)]) (Ref 0) (Select (Const 3) (Ref 0) FalseC))).
 Example roberts_ok : accepts prog_roberts = true.
 Proof. vm_compute. reflexivity. Qed.
 
 (* canny (165 DAG nodes, 138005 as a tree):  Select (Select (Pw gte [Pw sqrt [Pw add [Pw mult [Loc 1 convolve3x3 (Pw div [Glob function [Select (Img) (MaskE) (Const<zeros(..)>)]; Pw add [Glob function [MaskE]]]); Loc 1 convolve3x3 (Pw div [Glob function [Select (Img) (MaskE) (Const<zeros(..)>)]; Pw add [Glob function [MaskE]]])]; Pw mult [Loc 1 convolve3x3 (Pw div [Glob function [Select (Img) (MaskE) (Const<zeros(..)>)]; Pw add [Glob function [MaskE]]]); Loc 1 convolve3x3 (Pw div [Glob function [Select (Img) (MaskE) (Const<zeros(..)>)]; Pw add [Glob function [MaskE]]])]]]]) (Select (Glob scatter [Select (Pw lte [Pw add [Pw mult [Glob gat ... *)
 Definition prog_canny : prog :=
-  ([(Loc 1 34 (Pw 41 [(Glob 42 [(Select Img MaskE (Const 1))]); (Pw 31 [(Glob 42 [MaskE])])]));
+  ([(Loc 1 34 (Pw 41 [(Glob 42 [(Select Img MaskE (Const 3))]); (Pw 31 [(Glob 42 [MaskE])])]));
     (Pw 35 [(Ref 0); (Ref 0)]);
     (Pw 30 [(Pw 31 [(Ref 1); (Ref 1)])]);
     (Loc 1 44 (Ref 2));
@@ -276,11 +283,11 @@ Definition prog_canny : prog :=
     (Pw 41 [(Ref 37); (Ref 37)]);
     (Pw 27 [(Ref 38)]);
     (Glob 6 [(Select (Ref 2) (Ref 36) FalseC); (Ref 36)]);
-    (Select (Pw 40 [(Ref 2)]) (Select (Glob 8 [(Select (Pw 43 [(Pw 31 [(Pw 35 [(Glob 6 [(Select (Ref 3) (Ref 11) FalseC); (Ref 11)]); (Ref 13)]); (Pw 35 [(Glob 6 [(Select (Ref 14) (Ref 11) FalseC); (Ref 11)]); (Ref 15)])]); (Ref 16)]) (Pw 43 [(Pw 31 [(Pw 35 [(Glob 6 [(Select (Ref 17) (Ref 11) FalseC); (Ref 11)]); (Ref 13)]); (Pw 35 [(Glob 6 [(Select (Ref 18) (Ref 11) FalseC); (Ref 11)]); (Ref 15)])]); (Ref 16)]) FalseC); (Ref 11)]) (Ref 11) (Select (Glob 8 [(Select (Pw 43 [(Pw 31 [(Pw 35 [(Glob 6 [(Select (Ref 3) (Ref 22) FalseC); (Ref 22)]); (Ref 24)]); (Pw 35 [(Glob 6 [(Select (Ref 25) (Ref 22) FalseC); (Ref 22)]); (Ref 26)])]); (Ref 27)]) (Pw 43 [(Pw 31 [(Pw 35 [(Glob 6 [(Select (Ref 17) (Ref 22) FalseC); (Ref 22)]); (Ref 24)]); (Pw 35 [(Glob 6 [(Select (Ref 28) (Ref 22) FalseC); (Ref 22)]); (Ref 26)])]); (Ref 27)]) FalseC); (Ref 22)]) (Ref 22) (Select (Glob 8 [(Select (Pw 43 [(Pw 31 [(Pw 35 [(Glob 6 [(Select (Ref 29) (Ref 30) FalseC); (Ref 30)]); (Ref 32)]); (Pw 35 [(Glob 6 [(Select (Ref 25) (Ref 30) FalseC); (Ref 30)]); (Ref 33)])]); (Ref 34)]) (Pw 43 [(Pw 31 [(Pw 35 [(Glob 6 [(Select (Ref 35) (Ref 30) FalseC); (Ref 30)]); (Ref 32)]); (Pw 35 [(Glob 6 [(Select (Ref 28) (Ref 30) FalseC); (Ref 30)]); (Ref 33)])]); (Ref 34)]) FalseC); (Ref 30)]) (Ref 30) (Select (Glob 8 [(Select (Pw 43 [(Pw 31 [(Pw 35 [(Glob 6 [(Select (Ref 29) (Ref 36) FalseC); (Ref 36)]); (Ref 38)]); (Pw 35 [(Glob 6 [(Select (Ref 18) (Ref 36) FalseC); (Ref 36)]); (Ref 39)])]); (Ref 40)]) (Pw 43 [(Pw 31 [(Pw 35 [(Glob 6 [(Select (Ref 35) (Ref 36) FalseC); (Ref 36)]); (Ref 38)]); (Pw 35 [(Glob 6 [(Select (Ref 14) (Ref 36) FalseC); (Ref 36)]); (Ref 39)])]); (Ref 40)]) FalseC); (Ref 36)]) (Ref 36) (Const 1))))) FalseC);
+    (Select (Pw 40 [(Ref 2)]) (Select (Glob 8 [(Select (Pw 43 [(Pw 31 [(Pw 35 [(Glob 6 [(Select (Ref 3) (Ref 11) FalseC); (Ref 11)]); (Ref 13)]); (Pw 35 [(Glob 6 [(Select (Ref 14) (Ref 11) FalseC); (Ref 11)]); (Ref 15)])]); (Ref 16)]) (Pw 43 [(Pw 31 [(Pw 35 [(Glob 6 [(Select (Ref 17) (Ref 11) FalseC); (Ref 11)]); (Ref 13)]); (Pw 35 [(Glob 6 [(Select (Ref 18) (Ref 11) FalseC); (Ref 11)]); (Ref 15)])]); (Ref 16)]) FalseC); (Ref 11)]) (Ref 11) (Select (Glob 8 [(Select (Pw 43 [(Pw 31 [(Pw 35 [(Glob 6 [(Select (Ref 3) (Ref 22) FalseC); (Ref 22)]); (Ref 24)]); (Pw 35 [(Glob 6 [(Select (Ref 25) (Ref 22) FalseC); (Ref 22)]); (Ref 26)])]); (Ref 27)]) (Pw 43 [(Pw 31 [(Pw 35 [(Glob 6 [(Select (Ref 17) (Ref 22) FalseC); (Ref 22)]); (Ref 24)]); (Pw 35 [(Glob 6 [(Select (Ref 28) (Ref 22) FalseC); (Ref 22)]); (Ref 26)])]); (Ref 27)]) FalseC); (Ref 22)]) (Ref 22) (Select (Glob 8 [(Select (Pw 43 [(Pw 31 [(Pw 35 [(Glob 6 [(Select (Ref 29) (Ref 30) FalseC); (Ref 30)]); (Ref 32)]); (Pw 35 [(Glob 6 [(Select (Ref 25) (Ref 30) FalseC); (Ref 30)]); (Ref 33)])]); (Ref 34)]) (Pw 43 [(Pw 31 [(Pw 35 [(Glob 6 [(Select (Ref 35) (Ref 30) FalseC); (Ref 30)]); (Ref 32)]); (Pw 35 [(Glob 6 [(Select (Ref 28) (Ref 30) FalseC); (Ref 30)]); (Ref 33)])]); (Ref 34)]) FalseC); (Ref 30)]) (Ref 30) (Select (Glob 8 [(Select (Pw 43 [(Pw 31 [(Pw 35 [(Glob 6 [(Select (Ref 29) (Ref 36) FalseC); (Ref 36)]); (Ref 38)]); (Pw 35 [(Glob 6 [(Select (Ref 18) (Ref 36) FalseC); (Ref 36)]); (Ref 39)])]); (Ref 40)]) (Pw 43 [(Pw 31 [(Pw 35 [(Glob 6 [(Select (Ref 35) (Ref 36) FalseC); (Ref 36)]); (Ref 38)]); (Pw 35 [(Glob 6 [(Select (Ref 14) (Ref 36) FalseC); (Ref 36)]); (Ref 39)])]); (Ref 40)]) FalseC); (Ref 36)]) (Ref 36) (Const 3))))) FalseC);
     (Glob 39 [(Ref 41)]);
     (Glob 20 [(Ref 42)]);
     (Glob 22 [(Ref 42)])],
-   (Select (Select (Pw 40 [(Ref 2)]) (Select (Glob 8 [(Select (Pw 43 [(Pw 31 [(Pw 35 [(Glob 6 [(Select (Ref 3) (Ref 11) FalseC); (Ref 11)]); (Ref 13)]); (Pw 35 [(Glob 6 [(Select (Ref 14) (Ref 11) FalseC); (Ref 11)]); (Ref 15)])]); (Ref 16)]) (Pw 43 [(Pw 31 [(Pw 35 [(Glob 6 [(Select (Ref 17) (Ref 11) FalseC); (Ref 11)]); (Ref 13)]); (Pw 35 [(Glob 6 [(Select (Ref 18) (Ref 11) FalseC); (Ref 11)]); (Ref 15)])]); (Ref 16)]) FalseC); (Ref 11)]) (Ref 11) (Select (Glob 8 [(Select (Pw 43 [(Pw 31 [(Pw 35 [(Glob 6 [(Select (Ref 3) (Ref 22) FalseC); (Ref 22)]); (Ref 24)]); (Pw 35 [(Glob 6 [(Select (Ref 25) (Ref 22) FalseC); (Ref 22)]); (Ref 26)])]); (Ref 27)]) (Pw 43 [(Pw 31 [(Pw 35 [(Glob 6 [(Select (Ref 17) (Ref 22) FalseC); (Ref 22)]); (Ref 24)]); (Pw 35 [(Glob 6 [(Select (Ref 28) (Ref 22) FalseC); (Ref 22)]); (Ref 26)])]); (Ref 27)]) FalseC); (Ref 22)]) (Ref 22) (Select (Glob 8 [(Select (Pw 43 [(Pw 31 [(Pw 35 [(Glob 6 [(Select (Ref 29) (Ref 30) FalseC); (Ref 30)]); (Ref 32)]); (Pw 35 [(Glob 6 [(Select (Ref 25) (Ref 30) FalseC); (Ref 30)]); (Ref 33)])]); (Ref 34)]) (Pw 43 [(Pw 31 [(Pw 35 [(Glob 6 [(Select (Ref 35) (Ref 30) FalseC); (Ref 30)]); (Ref 32)]); (Pw 35 [(Glob 6 [(Select (Ref 28) (Ref 30) FalseC); (Ref 30)]); (Ref 33)])]); (Ref 34)]) FalseC); (Ref 30)]) (Ref 30) (Select (Glob 8 [(Select (Pw 43 [(Pw 31 [(Pw 35 [(Glob 6 [(Select (Ref 29) (Ref 36) FalseC); (Ref 36)]); (Ref 38)]); (Pw 35 [(Glob 6 [(Select (Ref 18) (Ref 36) FalseC); (Ref 36)]); (Ref 39)])]); (Ref 40)]) (Pw 43 [(Pw 31 [(Pw 35 [(Glob 6 [(Select (Ref 35) (Ref 36) FalseC); (Ref 36)]); (Ref 38)]); (Pw 35 [(Glob 6 [(Select (Ref 14) (Ref 36) FalseC); (Ref 36)]); (Ref 39)])]); (Ref 40)]) FalseC); (Ref 36)]) (Ref 36) (Const 1))))) FalseC) (Pw 38 [(Ref 43)]) (Glob 19 [(Glob 51 [(Glob 52 [(Pw 31 [(Ref 43)])]); (Pw 17 [(Glob 53 [(Glob 54 [(Ref 41); (Ref 44); (Pw 31 [(Glob 55 [(Ref 43)])])])])])]); (Ref 44)]))).
+   (Select (Select (Pw 40 [(Ref 2)]) (Select (Glob 8 [(Select (Pw 43 [(Pw 31 [(Pw 35 [(Glob 6 [(Select (Ref 3) (Ref 11) FalseC); (Ref 11)]); (Ref 13)]); (Pw 35 [(Glob 6 [(Select (Ref 14) (Ref 11) FalseC); (Ref 11)]); (Ref 15)])]); (Ref 16)]) (Pw 43 [(Pw 31 [(Pw 35 [(Glob 6 [(Select (Ref 17) (Ref 11) FalseC); (Ref 11)]); (Ref 13)]); (Pw 35 [(Glob 6 [(Select (Ref 18) (Ref 11) FalseC); (Ref 11)]); (Ref 15)])]); (Ref 16)]) FalseC); (Ref 11)]) (Ref 11) (Select (Glob 8 [(Select (Pw 43 [(Pw 31 [(Pw 35 [(Glob 6 [(Select (Ref 3) (Ref 22) FalseC); (Ref 22)]); (Ref 24)]); (Pw 35 [(Glob 6 [(Select (Ref 25) (Ref 22) FalseC); (Ref 22)]); (Ref 26)])]); (Ref 27)]) (Pw 43 [(Pw 31 [(Pw 35 [(Glob 6 [(Select (Ref 17) (Ref 22) FalseC); (Ref 22)]); (Ref 24)]); (Pw 35 [(Glob 6 [(Select (Ref 28) (Ref 22) FalseC); (Ref 22)]); (Ref 26)])]); (Ref 27)]) FalseC); (Ref 22)]) (Ref 22) (Select (Glob 8 [(Select (Pw 43 [(Pw 31 [(Pw 35 [(Glob 6 [(Select (Ref 29) (Ref 30) FalseC); (Ref 30)]); (Ref 32)]); (Pw 35 [(Glob 6 [(Select (Ref 25) (Ref 30) FalseC); (Ref 30)]); (Ref 33)])]); (Ref 34)]) (Pw 43 [(Pw 31 [(Pw 35 [(Glob 6 [(Select (Ref 35) (Ref 30) FalseC); (Ref 30)]); (Ref 32)]); (Pw 35 [(Glob 6 [(Select (Ref 28) (Ref 30) FalseC); (Ref 30)]); (Ref 33)])]); (Ref 34)]) FalseC); (Ref 30)]) (Ref 30) (Select (Glob 8 [(Select (Pw 43 [(Pw 31 [(Pw 35 [(Glob 6 [(Select (Ref 29) (Ref 36) FalseC); (Ref 36)]); (Ref 38)]); (Pw 35 [(Glob 6 [(Select (Ref 18) (Ref 36) FalseC); (Ref 36)]); (Ref 39)])]); (Ref 40)]) (Pw 43 [(Pw 31 [(Pw 35 [(Glob 6 [(Select (Ref 35) (Ref 36) FalseC); (Ref 36)]); (Ref 38)]); (Pw 35 [(Glob 6 [(Select (Ref 14) (Ref 36) FalseC); (Ref 36)]); (Ref 39)])]); (Ref 40)]) FalseC); (Ref 36)]) (Ref 36) (Const 3))))) FalseC) (Pw 38 [(Ref 43)]) (Glob 19 [(Glob 51 [(Glob 52 [(Pw 31 [(Ref 43)])]); (Pw 17 [(Glob 53 [(Glob 54 [(Ref 41); (Ref 44); (Pw 31 [(Glob 55 [(Ref 43)])])])])])]); (Ref 44)]))).
 Example canny_ok : accepts prog_canny = true.
 Proof. vm_compute. reflexivity. Qed.
 
@@ -309,28 +316,28 @@ Proof. vm_compute. reflexivity. Qed.
 (* smooth_with_function_and_mask (8 DAG nodes, 9 as a tree):  Pw div [Glob function [Select (Img) (MaskE) (Const<zeros(..)>)]; Pw add [Glob function [MaskE]]] *)
 Definition prog_smooth_with_function_and_mask : prog :=
   ([],
-   (Pw 41 [(Glob 42 [(Select Img MaskE (Const 1))]); (Pw 31 [(Glob 42 [MaskE])])])).
+   (Pw 41 [(Glob 42 [(Select Img MaskE (Const 3))]); (Pw 31 [(Glob 42 [MaskE])])])).
 Example smooth_with_function_and_mask_ok : accepts prog_smooth_with_function_and_mask = true.
 Proof. vm_compute. reflexivity. Qed.
 
-(* stretch (22 DAG nodes, 82 as a tree):  Select (Pw array [Img]) (Const<cmp>) (Select (Pw array [Img]) (Pw eq [Glob count_nonzero [MaskE]]) (Select (Select (Glob scatter [Glob min [Glob gather [Select (Pw array [Img]) (MaskE) (FalseC); MaskE]]; MaskE]) (MaskE) (Pw array [Img])) (Pw eq [Glob min [Glob gather [Select (Pw array [Img]) (MaskE) (FalseC); MaskE]]; Glob max [Glob gather [Select (Pw array [Img]) (MaskE) (FalseC); MaskE]]]) (Select (Glob scatter [Pw div [Pw sub [Glob gather [Select (Pw array [Img]) (MaskE) (FalseC); MaskE]; Glob min [Glob gather [Select (Pw array [Img]) (MaskE) (FalseC); MaskE]]]; Pw sub [Glob max [Glob gathe ... *)
+(* stretch (20 DAG nodes, 76 as a tree):  Select (Pw array [Img]) (Const<cmp>) (Select (Pw array [Img]) (Pw eq [Glob count_nonzero [MaskE]]) (Select (Glob scatter [Select (Glob min [Glob gather [Select (Pw array [Img]) (MaskE) (FalseC); MaskE]]) (Pw eq [Glob min [Glob gather [Select (Pw array [Img]) (MaskE) (FalseC); MaskE]]; Glob max [Glob gather [Select (Pw array [Img]) (MaskE) (FalseC); MaskE]]]) (Pw div [Pw sub [Glob gather [Select (Pw array [Img]) (MaskE) (FalseC); MaskE]; Glob min [Glob gather [Select (Pw array [Img]) (MaskE) (FalseC); MaskE]]]; Pw sub [Glob max [Glob gather [Select (Pw array [Img]) (MaskE) (FalseC); MaskE]]; Gl ... *)
 Definition prog_stretch : prog :=
   ([(Pw 59 [Img]);
     (Glob 6 [(Select (Ref 0) MaskE FalseC); MaskE]);
     (Glob 16 [(Ref 1)]);
     (Glob 18 [(Ref 1)])],
-   (Select (Ref 0) (Const 4) (Select (Ref 0) (Pw 38 [(Glob 60 [MaskE])]) (Select (Select (Glob 8 [(Ref 2); MaskE]) MaskE (Ref 0)) (Pw 38 [(Ref 2); (Ref 3)]) (Select (Glob 8 [(Pw 41 [(Pw 27 [(Ref 1); (Ref 2)]); (Pw 27 [(Ref 3); (Ref 2)])]); MaskE]) MaskE (Ref 0)))))).
+   (Select (Ref 0) (Const 6) (Select (Ref 0) (Pw 38 [(Glob 60 [MaskE])]) (Select (Glob 8 [(Select (Ref 2) (Pw 38 [(Ref 2); (Ref 3)]) (Pw 41 [(Pw 27 [(Ref 1); (Ref 2)]); (Pw 27 [(Ref 3); (Ref 2)])])); MaskE]) MaskE (Ref 0))))).
 Example stretch_ok : accepts prog_stretch = true.
 Proof. vm_compute. reflexivity. Qed.
 
 (* fit_polynomial (31 DAG nodes, 539 as a tree):  Select (Select (Select (FalseC) (Pw lt [Select (Const<1>) (Pw gt [Glob sum [Glob opaque_expression [Glob index [Glob lstsq [Glob transpose [Pw array [Glob gather [Select (Const<unpacked>) (Select (Pw gt [Img]) (MaskE) (FalseC)) (FalseC); Select (Pw gt [Img]) (MaskE) (FalseC)]; Glob gather [Select (Const<unpacked>) (Select (Pw gt [Img]) (MaskE) (FalseC)) (FalseC); Select (Pw gt [Img]) (MaskE) (FalseC)]; Glob gather [Select (Const<expr>) (Select (Pw gt [Img]) (MaskE) (FalseC)) (FalseC); Select (Pw gt [Img]) (MaskE) (FalseC)]; Glob gather [Select (Const<expr>) (Select (Pw gt [Img]) (MaskE) (False ... *)
 Definition prog_fit_polynomial : prog :=
   ([(Select (Pw 17 [Img]) MaskE FalseC);
-    (Glob 6 [(Select (Const 6) (Ref 0) FalseC); (Ref 0)]);
-    (Glob 6 [(Select (Const 7) (Ref 0) FalseC); (Ref 0)]);
-    (Glob 54 [(Glob 61 [(Glob 19 [(Glob 62 [(Glob 63 [(Pw 59 [(Ref 1); (Ref 1); (Ref 2); (Ref 2); (Ref 2); (Glob 6 [(Select (Const 2) (Ref 0) FalseC); (Ref 0)])])]); (Glob 6 [(Select Img (Ref 0) FalseC); (Ref 0)])])])])]);
-    (Select (Const 3) (Pw 17 [(Ref 3)]) (Ref 3))],
-   (Select (Select (Select FalseC (Pw 15 [(Ref 4)]) (Select (Const 3) (Pw 17 [(Ref 3)]) (Ref 3))) (Const 5) (Ref 3)) (Glob 11 [(Ref 0)]) Img)).
+    (Glob 6 [(Select (Const 8) (Ref 0) FalseC); (Ref 0)]);
+    (Glob 6 [(Select (Const 9) (Ref 0) FalseC); (Ref 0)]);
+    (Glob 54 [(Glob 61 [(Glob 19 [(Glob 62 [(Glob 63 [(Pw 59 [(Ref 1); (Ref 1); (Ref 2); (Ref 2); (Ref 2); (Glob 6 [(Select (Const 4) (Ref 0) FalseC); (Ref 0)])])]); (Glob 6 [(Select Img (Ref 0) FalseC); (Ref 0)])])])])]);
+    (Select (Const 5) (Pw 17 [(Ref 3)]) (Ref 3))],
+   (Select (Select (Select FalseC (Pw 15 [(Ref 4)]) (Select (Const 5) (Pw 17 [(Ref 3)]) (Ref 3))) (Const 7) (Ref 3)) (Glob 11 [(Ref 0)]) Img)).
 Example fit_polynomial_ok : accepts prog_fit_polynomial = true.
 Proof. vm_compute. reflexivity. Qed.
 
@@ -344,31 +351,31 @@ Definition prog_circular_hough : prog :=
 Example circular_hough_ok : accepts prog_circular_hough = true.
 Proof. vm_compute. reflexivity. Qed.
 
-(* convex_hull_transform (260 DAG nodes, 1596660186 as a tree):  Select (Const<zeros(..)>) (Pw eq [Glob len [Glob gather [Select (Img) (MaskE) (FalseC); MaskE]]]) (Select (Img) (Pw eq [Glob min [Glob gather [Select (Img) (MaskE) (FalseC); MaskE]]; Glob max [Glob gather [Select (Img) (MaskE) (FalseC); MaskE]]]) (Select (Glob index [Glob index [Pw add [Glob min [Glob gather [Select (Img) (MaskE) (FalseC); MaskE]]; Pw div [Pw mult [Pw sub [Glob max [Glob gather [Select (Img) (MaskE) (FalseC); MaskE]]; Glob min [Glob gather [Select (Img) (MaskE) (FalseC); MaskE]]]]]]; Glob unique [Pw astype [Pw maximum [Select (Pw div [Pw mult [Pw sub [Img; Glob min [Glob gathe ... *)
+(* convex_hull_transform (144 DAG nodes, 1589701008 as a tree):  Select (Const<zeros(..)>) (Pw eq [Glob len [Glob gather [Select (Img) (MaskE) (FalseC); MaskE]]]) (Select (Img) (Pw eq [Glob min [Glob gather [Select (Img) (MaskE) (FalseC); MaskE]]; Glob max [Glob gather [Select (Img) (MaskE) (FalseC); MaskE]]]) (Glob index [Glob index [Pw add [Glob min [Glob gather [Select (Img) (MaskE) (FalseC); MaskE]]; Pw div [Pw mult [Pw sub [Glob max [Glob gather [Select (Img) (MaskE) (FalseC); MaskE]]; Glob min [Glob gather [Select (Img) (MaskE) (FalseC); MaskE]]]]]]; Glob unique [Pw astype [Select (Pw maximum [Select (Pw div [Pw mult [Pw sub [Img; Glob min [Glob gathe ... *)
 Definition prog_convex_hull_transform : prog :=
   ([(Glob 6 [(Select Img MaskE FalseC); MaskE]);
     (Glob 16 [(Ref 0)]);
     (Glob 18 [(Ref 0)]);
     (Pw 27 [(Ref 2); (Ref 1)]);
-    (Pw 31 [(Ref 1); (Pw 41 [(Pw 35 [(Ref 3)])])]);
     (Select (Pw 41 [(Pw 35 [(Pw 27 [Img; (Ref 1)])]); (Ref 3)]) MaskE FalseC);
-    (Pw 69 [(Pw 70 [(Ref 5); (Glob 71 [(Pw 72 [(Ref 5)])])])]);
-    (Glob 68 [(Ref 6)]);
-    (Glob 55 [(Glob 67 [(Ref 7)])]);
-    (Glob 19 [(Glob 75 [(Ref 7); (Ref 8)]); (Ref 6)]);
-    (Glob 76 [(Ref 9)]);
-    (Glob 75 [(Glob 75 [(Glob 75 [(Glob 75 [(Pw 69 [(Glob 23 [(Glob 24 [(Glob 25 [(Glob 80 [(Pw 31 [(Pw 59 [(Ref 10)])])]); (Ref 9)])])])])])])])]);
-    (Pw 17 [(Ref 9); (Ref 11)]);
-    (Glob 6 [(Select (Ref 9) (Ref 12) FalseC); (Ref 12)]);
-    (Glob 6 [(Select (Ref 11) (Ref 12) FalseC); (Ref 12)]);
-    (Pw 27 [(Ref 13); (Ref 14)]);
-    (Pw 27 [(Glob 74 [(Ref 15)]); (Ref 15)]);
-    (Glob 54 [(Ref 15)]);
-    (Glob 81 [(Glob 19 [(Ref 10)])]);
+    (Pw 69 [(Select (Pw 70 [(Ref 4); (Glob 71 [(Pw 72 [(Ref 4)])])]) (Const 6) (Ref 4))]);
+    (Glob 68 [(Ref 5)]);
+    (Glob 55 [(Glob 67 [(Ref 6)])]);
+    (Glob 19 [(Glob 75 [(Ref 6); (Ref 7)]); (Ref 5)]);
+    (Glob 76 [(Ref 8)]);
+    (Glob 75 [(Glob 75 [(Glob 75 [(Glob 75 [(Pw 69 [(Glob 23 [(Glob 24 [(Glob 25 [(Glob 80 [(Pw 31 [(Pw 59 [(Ref 9)])])]); (Ref 8)])])])])])])])]);
+    (Pw 17 [(Ref 8); (Ref 10)]);
+    (Glob 6 [(Select (Ref 8) (Ref 11) FalseC); (Ref 11)]);
+    (Glob 6 [(Select (Ref 10) (Ref 11) FalseC); (Ref 11)]);
+    (Pw 27 [(Ref 12); (Ref 13)]);
+    (Pw 27 [(Glob 74 [(Ref 14)]); (Ref 14)]);
+    (Glob 54 [(Ref 14)]);
+    (Glob 67 [(Ref 14)]);
+    (Glob 81 [(Glob 19 [(Ref 9)])]);
     (Glob 19 [(Ref 18); (Ref 18)]);
-    (Glob 6 [(Select (Glob 22 [(Ref 19)]) (Ref 12) FalseC); (Ref 12)]);
-    (Glob 6 [(Select (Glob 20 [(Ref 19)]) (Ref 12) FalseC); (Ref 12)]);
-    (Glob 77 [(Glob 78 [(Glob 79 [(Ref 15); (Ref 16); (Ref 17); (Ref 14); (Ref 13); (Ref 20); (Ref 21); (Ref 7)]); (Glob 82 [(Ref 15); (Ref 16); (Ref 17); (Ref 14); (Ref 13); (Ref 20); (Ref 21); (Ref 7)]); (Glob 83 [(Ref 15); (Ref 16); (Ref 17); (Ref 14); (Ref 13); (Ref 20); (Ref 21); (Ref 7)])]); (Ref 8)]);
+    (Glob 6 [(Select (Glob 22 [(Ref 19)]) (Ref 11) FalseC); (Ref 11)]);
+    (Glob 6 [(Select (Glob 20 [(Ref 19)]) (Ref 11) FalseC); (Ref 11)]);
+    (Glob 77 [(Glob 78 [(Glob 79 [(Ref 15); (Ref 16); (Ref 17); (Ref 13); (Ref 12); (Ref 20); (Ref 21); (Ref 7)]); (Glob 82 [(Ref 15); (Ref 16); (Ref 17); (Ref 13); (Ref 12); (Ref 20); (Ref 21); (Ref 7)]); (Glob 83 [(Ref 15); (Ref 16); (Ref 17); (Ref 13); (Ref 12); (Ref 20); (Ref 21); (Ref 7)])]); (Ref 7)]);
     (Glob 19 [(Glob 22 [(Ref 22)])]);
     (Glob 20 [(Ref 22)]);
     (Pw 27 [(Glob 74 [(Ref 24)]); (Ref 24)]);
@@ -393,63 +400,26 @@ Definition prog_convex_hull_transform : prog :=
     (Glob 86 [(Ref 39)]);
     (Pw 1 [(Ref 44)]);
     (Glob 19 [(Pw 27 [(Glob 86 [(Ref 35)]); (Glob 92 [(Ref 35)])]); (Ref 45)]);
-    (Pw 93 [(Glob 89 [(Ref 44)]); (Pw 15 [(Ref 37)])]);
-    (Glob 68 [(Ref 5)]);
-    (Glob 55 [(Glob 67 [(Ref 48)])]);
-    (Glob 6 [(Select (Glob 75 [(Ref 48); (Ref 49)]) (Ref 5) FalseC); (Ref 5)]);
-    (Glob 60 [(Ref 5)]);
-    (Glob 75 [(Glob 75 [(Glob 75 [(Glob 75 [(Pw 69 [(Glob 23 [(Glob 24 [(Glob 25 [(Glob 80 [(Pw 31 [(Pw 59 [(Ref 51)])])]); (Ref 50)])])])])])])])]);
-    (Pw 17 [(Ref 50); (Ref 52)]);
-    (Glob 6 [(Select (Ref 50) (Ref 53) FalseC); (Ref 53)]);
-    (Glob 6 [(Select (Ref 52) (Ref 53) FalseC); (Ref 53)]);
-    (Pw 27 [(Ref 54); (Ref 55)]);
-    (Pw 27 [(Glob 74 [(Ref 56)]); (Ref 56)]);
-    (Glob 54 [(Ref 56)]);
-    (Glob 81 [(Glob 19 [(Ref 51)])]);
-    (Glob 19 [(Ref 59); (Ref 59)]);
-    (Glob 6 [(Select (Glob 22 [(Ref 60)]) (Ref 53) FalseC); (Ref 53)]);
-    (Glob 6 [(Select (Glob 20 [(Ref 60)]) (Ref 53) FalseC); (Ref 53)]);
-    (Glob 77 [(Glob 78 [(Glob 79 [(Ref 56); (Ref 57); (Ref 58); (Ref 55); (Ref 54); (Ref 61); (Ref 62); (Ref 48)]); (Glob 82 [(Ref 56); (Ref 57); (Ref 58); (Ref 55); (Ref 54); (Ref 61); (Ref 62); (Ref 48)]); (Glob 83 [(Ref 56); (Ref 57); (Ref 58); (Ref 55); (Ref 54); (Ref 61); (Ref 62); (Ref 48)])]); (Ref 49)]);
-    (Glob 19 [(Glob 22 [(Ref 63)])]);
-    (Glob 20 [(Ref 63)]);
-    (Pw 27 [(Glob 74 [(Ref 65)]); (Ref 65)]);
-    (Glob 19 [(Ref 64); (Glob 75 [(Pw 31 [(Glob 55 [(Glob 67 [(Ref 64)])])]); (Pw 27 [(Pw 31 [(Ref 66); (Ref 65)])]); (Ref 66)])]);
-    (Glob 85 [(Ref 64); (Ref 64); (Ref 67); (Ref 67)]);
-    (Glob 84 [(Ref 68)]);
-    (Glob 19 [(Ref 64); (Glob 74 [(Glob 75 [(Glob 52 [(Glob 67 [(Ref 69)])]); (Glob 86 [(Glob 22 [(Ref 68)])])])])]);
-    (Glob 88 [(Ref 68)]);
-    (Glob 87 [(Ref 70); (Ref 69); (Ref 71)]);
-    (Glob 19 [(Ref 69); (Ref 72)]);
-    (Glob 19 [(Ref 71); (Ref 72)]);
-    (Glob 89 [(Pw 90 [(Pw 91 [(Glob 86 [(Ref 73)]); (Glob 92 [(Ref 73)])]); (Pw 91 [(Glob 86 [(Ref 74)]); (Glob 92 [(Ref 74)])])])]);
-    (Glob 19 [(Glob 19 [(Ref 70); (Ref 72)]); (Ref 75)]);
-    (Glob 52 [(Glob 76 [(Ref 76)])]);
-    (Glob 19 [(Ref 73); (Ref 75)]);
-    (Glob 19 [(Ref 74); (Ref 75)]);
-    (Glob 89 [(Pw 91 [(Glob 86 [(Ref 79)]); (Glob 92 [(Ref 79)])])]);
-    (Glob 19 [(Ref 79); (Ref 80)]);
-    (Glob 19 [(Ref 76); (Ref 80)]);
-    (Pw 1 [(Ref 80)]);
-    (Glob 19 [(Ref 79); (Ref 83)]);
-    (Glob 86 [(Ref 80)]);
-    (Pw 1 [(Ref 85)]);
-    (Glob 19 [(Pw 27 [(Glob 86 [(Ref 76)]); (Glob 92 [(Ref 76)])]); (Ref 86)]);
-    (Pw 93 [(Glob 89 [(Ref 85)]); (Pw 15 [(Ref 78)])])],
-   (Select (Const 1) (Pw 38 [(Glob 67 [(Ref 0)])]) (Select Img (Pw 38 [(Ref 1); (Ref 2)]) (Select (Glob 19 [(Glob 19 [(Ref 4); (Ref 7)]); (Pw 73 [(Glob 74 [(Glob 75 [(Glob 75 [(Ref 36); (Glob 19 [(Ref 37); (Ref 39)]); (Ref 40); (Ref 41)]); (Glob 19 [(Ref 37); (Ref 42)]); (Ref 43); (Ref 46)])]); (Glob 74 [(Glob 75 [(Glob 75 [(Glob 75 [(Ref 36); (Ref 40); (Ref 41)]); (Pw 31 [(Glob 19 [(Glob 92 [(Ref 37)]); (Ref 45)])]); (Ref 43); (Ref 46)]); (Pw 31 [(Glob 19 [(Ref 37); (Ref 47)])]); (Glob 19 [(Ref 38); (Ref 47)]); (Pw 94 [(Glob 19 [(Ref 35); (Ref 47)])])])])])]) (Const 4) (Glob 19 [(Glob 19 [(Ref 4); (Ref 48)]); (Pw 73 [(Glob 74 [(Glob 75 [(Glob 75 [(Ref 77); (Glob 19 [(Ref 78); (Ref 80)]); (Ref 81); (Ref 82)]); (Glob 19 [(Ref 78); (Ref 83)]); (Ref 84); (Ref 87)])]); (Glob 74 [(Glob 75 [(Glob 75 [(Glob 75 [(Ref 77); (Ref 81); (Ref 82)]); (Pw 31 [(Glob 19 [(Glob 92 [(Ref 78)]); (Ref 86)])]); (Ref 84); (Ref 87)]); (Pw 31 [(Glob 19 [(Ref 78); (Ref 88)])]); (Glob 19 [(Ref 79); (Ref 88)]); (Pw 94 [(Glob 19 [(Ref 76); (Ref 88)])])])])])]))))).
+    (Pw 93 [(Glob 89 [(Ref 44)]); (Pw 15 [(Ref 37)])])],
+   (Select (Const 3) (Pw 38 [(Glob 67 [(Ref 0)])]) (Select Img (Pw 38 [(Ref 1); (Ref 2)]) (Glob 19 [(Glob 19 [(Pw 31 [(Ref 1); (Pw 41 [(Pw 35 [(Ref 3)])])]); (Ref 6)]); (Pw 73 [(Glob 74 [(Glob 75 [(Glob 75 [(Ref 36); (Glob 19 [(Ref 37); (Ref 39)]); (Ref 40); (Ref 41)]); (Glob 19 [(Ref 37); (Ref 42)]); (Ref 43); (Ref 46)])]); (Glob 74 [(Glob 75 [(Glob 75 [(Glob 75 [(Ref 36); (Ref 40); (Ref 41)]); (Pw 31 [(Glob 19 [(Glob 92 [(Ref 37)]); (Ref 45)])]); (Ref 43); (Ref 46)]); (Pw 31 [(Glob 19 [(Ref 37); (Ref 47)])]); (Glob 19 [(Ref 38); (Ref 47)]); (Pw 94 [(Glob 19 [(Ref 35); (Ref 47)])])])])])])))).
 Example convex_hull_transform_ok : accepts prog_convex_hull_transform = true.
 Proof. vm_compute. reflexivity. Qed.
 
-(* regional_maximum (11 DAG nodes, 33 as a tree):  Select (Glob one_pixel_per_component(edt,label,rank_order,maximum_position) [Select (Select (Pw not [LocS 0 has_greater_structure_neighbour (Img)]) (ErodeS 0 (MaskE)) (FalseC)) (MaskE) (FalseC)]) (Glob any [Select (Select (Pw not [LocS 0 has_greater_structure_neighbour (Img)]) (ErodeS 0 (MaskE)) (FalseC)) (MaskE) (FalseC)]) (Select (Select (Pw not [LocS 0 has_greater_structure_neighbour (Img)]) (ErodeS 0 (MaskE)) (FalseC)) (MaskE) (FalseC)) *)
+(* regional_maximum (34 DAG nodes, 234 as a tree):  Select (Select (Glob indexed_store [Glob index [Pw array [Glob maximum_position [Glob flat_add [Pw astype [Glob index [Glob rank_order [Glob distance_transform_edt [Select (Select (Pw not [LocS 0 has_greater_structure_neighbour (Img)]) (ErodeS 0 (MaskE)) (FalseC)) (Select (Const<ones(..)>) (MaskE) (FalseC)) (FalseC)]]]]; Pw div [Pw astype [Glob permutation [Glob product [Glob shape_of [Pw astype [Glob index [Glob rank_order [Glob distance_transform_edt [Select (Select (Pw not [LocS 0 has_greater_structure_neighbour (Img)]) (ErodeS 0 (MaskE)) (FalseC)) (Select (Const<ones(..)>) (MaskE) (FalseC) ... *)
 Definition prog_regional_maximum : prog :=
-  ([(Select (Select (Pw 1 [(LocS 0 12 Img)]) (ErodeS 0 MaskE) FalseC) MaskE FalseC)],
-   (Select (Glob 13 [(Ref 0)]) (Glob 11 [(Ref 0)]) (Select (Select (Pw 1 [(LocS 0 12 Img)]) (ErodeS 0 MaskE) FalseC) MaskE FalseC))).
+  ([(Select (Select (Pw 1 [(LocS 0 12 Img)]) (ErodeS 0 MaskE) FalseC) (Select (Const 4) MaskE FalseC) FalseC);
+    (Pw 69 [(Glob 19 [(Glob 21 [(Glob 97 [(Ref 0)])])])]);
+    (Glob 99 [(Glob 76 [(Ref 1)])]);
+    (Glob 39 [(Ref 0)]);
+    (Glob 19 [(Pw 59 [(Glob 95 [(Glob 96 [(Ref 1); (Pw 41 [(Pw 69 [(Glob 98 [(Ref 2)])]); (Pw 100 [(Ref 2)])])]); (Glob 22 [(Ref 3)]); (Pw 31 [(Glob 55 [(Glob 20 [(Ref 3)])])])])])])],
+   (Select (Select (Glob 75 [(Ref 4); (Ref 4)]) (Glob 11 [(Ref 0)]) (Select (Select (Pw 1 [(LocS 0 12 Img)]) (ErodeS 0 MaskE) FalseC) (Select (Const 4) MaskE FalseC) FalseC)) (Const 10) (Select (Select (Pw 1 [(LocS 0 12 Img)]) (ErodeS 0 MaskE) FalseC) (Select (Const 4) MaskE FalseC) FalseC))).
 Example regional_maximum_ok : accepts prog_regional_maximum = true.
 Proof. vm_compute. reflexivity. Qed.
 
 (* bridge (8 DAG nodes, 10 as a tree):  Select (Glob table_lookup [Select (Pw copy [Pw astype [Img]]) (MaskE) (FalseC)]) (MaskE) (Img) *)
 Definition prog_bridge : prog :=
   ([],
-   (Select (Glob 95 [(Select (Pw 2 [(Pw 69 [Img])]) MaskE FalseC)]) MaskE Img)).
+   (Select (Glob 101 [(Select (Pw 2 [(Pw 69 [Img])]) MaskE FalseC)]) MaskE Img)).
 Example bridge_ok : accepts prog_bridge = true.
 Proof. vm_compute. reflexivity. Qed.
 Example bridge_restores : restores_outside prog_bridge = true.
@@ -458,7 +428,7 @@ Proof. vm_compute. reflexivity. Qed.
 (* clean (8 DAG nodes, 10 as a tree):  Select (Glob table_lookup [Select (Pw copy [Pw astype [Img]]) (MaskE) (FalseC)]) (MaskE) (Img) *)
 Definition prog_clean : prog :=
   ([],
-   (Select (Glob 95 [(Select (Pw 2 [(Pw 69 [Img])]) MaskE FalseC)]) MaskE Img)).
+   (Select (Glob 101 [(Select (Pw 2 [(Pw 69 [Img])]) MaskE FalseC)]) MaskE Img)).
 Example clean_ok : accepts prog_clean = true.
 Proof. vm_compute. reflexivity. Qed.
 Example clean_restores : restores_outside prog_clean = true.
@@ -467,7 +437,7 @@ Proof. vm_compute. reflexivity. Qed.
 (* diag (8 DAG nodes, 10 as a tree):  Select (Glob table_lookup [Select (Pw copy [Pw astype [Img]]) (MaskE) (FalseC)]) (MaskE) (Img) *)
 Definition prog_diag : prog :=
   ([],
-   (Select (Glob 95 [(Select (Pw 2 [(Pw 69 [Img])]) MaskE FalseC)]) MaskE Img)).
+   (Select (Glob 101 [(Select (Pw 2 [(Pw 69 [Img])]) MaskE FalseC)]) MaskE Img)).
 Example diag_ok : accepts prog_diag = true.
 Proof. vm_compute. reflexivity. Qed.
 Example diag_restores : restores_outside prog_diag = true.
@@ -476,7 +446,7 @@ Proof. vm_compute. reflexivity. Qed.
 (* endpoints (8 DAG nodes, 10 as a tree):  Select (Glob table_lookup [Select (Pw copy [Pw astype [Img]]) (MaskE) (FalseC)]) (MaskE) (Img) *)
 Definition prog_endpoints : prog :=
   ([],
-   (Select (Glob 95 [(Select (Pw 2 [(Pw 69 [Img])]) MaskE FalseC)]) MaskE Img)).
+   (Select (Glob 101 [(Select (Pw 2 [(Pw 69 [Img])]) MaskE FalseC)]) MaskE Img)).
 Example endpoints_ok : accepts prog_endpoints = true.
 Proof. vm_compute. reflexivity. Qed.
 Example endpoints_restores : restores_outside prog_endpoints = true.
@@ -485,7 +455,7 @@ Proof. vm_compute. reflexivity. Qed.
 (* branchpoints (8 DAG nodes, 10 as a tree):  Select (Glob table_lookup [Select (Pw copy [Pw astype [Img]]) (MaskE) (FalseC)]) (MaskE) (Img) *)
 Definition prog_branchpoints : prog :=
   ([],
-   (Select (Glob 95 [(Select (Pw 2 [(Pw 69 [Img])]) MaskE FalseC)]) MaskE Img)).
+   (Select (Glob 101 [(Select (Pw 2 [(Pw 69 [Img])]) MaskE FalseC)]) MaskE Img)).
 Example branchpoints_ok : accepts prog_branchpoints = true.
 Proof. vm_compute. reflexivity. Qed.
 Example branchpoints_restores : restores_outside prog_branchpoints = true.
@@ -494,7 +464,7 @@ Proof. vm_compute. reflexivity. Qed.
 (* fill (8 DAG nodes, 10 as a tree):  Select (Glob table_lookup [Select (Pw copy [Pw astype [Img]]) (MaskE) (Const<True>)]) (MaskE) (Img) *)
 Definition prog_fill : prog :=
   ([],
-   (Select (Glob 95 [(Select (Pw 2 [(Pw 69 [Img])]) MaskE (Const 8))]) MaskE Img)).
+   (Select (Glob 101 [(Select (Pw 2 [(Pw 69 [Img])]) MaskE (Const 1))]) MaskE Img)).
 Example fill_ok : accepts prog_fill = true.
 Proof. vm_compute. reflexivity. Qed.
 Example fill_restores : restores_outside prog_fill = true.
@@ -503,7 +473,7 @@ Proof. vm_compute. reflexivity. Qed.
 (* fill4 (8 DAG nodes, 10 as a tree):  Select (Glob table_lookup [Select (Pw copy [Pw astype [Img]]) (MaskE) (Const<True>)]) (MaskE) (Img) *)
 Definition prog_fill4 : prog :=
   ([],
-   (Select (Glob 95 [(Select (Pw 2 [(Pw 69 [Img])]) MaskE (Const 8))]) MaskE Img)).
+   (Select (Glob 101 [(Select (Pw 2 [(Pw 69 [Img])]) MaskE (Const 1))]) MaskE Img)).
 Example fill4_ok : accepts prog_fill4 = true.
 Proof. vm_compute. reflexivity. Qed.
 Example fill4_restores : restores_outside prog_fill4 = true.
@@ -512,7 +482,7 @@ Proof. vm_compute. reflexivity. Qed.
 (* hbreak (8 DAG nodes, 10 as a tree):  Select (Glob table_lookup [Select (Pw copy [Pw astype [Img]]) (MaskE) (FalseC)]) (MaskE) (Img) *)
 Definition prog_hbreak : prog :=
   ([],
-   (Select (Glob 95 [(Select (Pw 2 [(Pw 69 [Img])]) MaskE FalseC)]) MaskE Img)).
+   (Select (Glob 101 [(Select (Pw 2 [(Pw 69 [Img])]) MaskE FalseC)]) MaskE Img)).
 Example hbreak_ok : accepts prog_hbreak = true.
 Proof. vm_compute. reflexivity. Qed.
 Example hbreak_restores : restores_outside prog_hbreak = true.
@@ -521,7 +491,7 @@ Proof. vm_compute. reflexivity. Qed.
 (* vbreak (8 DAG nodes, 10 as a tree):  Select (Glob table_lookup [Select (Pw copy [Pw astype [Img]]) (MaskE) (FalseC)]) (MaskE) (Img) *)
 Definition prog_vbreak : prog :=
   ([],
-   (Select (Glob 95 [(Select (Pw 2 [(Pw 69 [Img])]) MaskE FalseC)]) MaskE Img)).
+   (Select (Glob 101 [(Select (Pw 2 [(Pw 69 [Img])]) MaskE FalseC)]) MaskE Img)).
 Example vbreak_ok : accepts prog_vbreak = true.
 Proof. vm_compute. reflexivity. Qed.
 Example vbreak_restores : restores_outside prog_vbreak = true.
@@ -530,7 +500,7 @@ Proof. vm_compute. reflexivity. Qed.
 (* majority (8 DAG nodes, 10 as a tree):  Select (Glob table_lookup [Select (Pw copy [Pw astype [Img]]) (MaskE) (FalseC)]) (MaskE) (Img) *)
 Definition prog_majority : prog :=
   ([],
-   (Select (Glob 95 [(Select (Pw 2 [(Pw 69 [Img])]) MaskE FalseC)]) MaskE Img)).
+   (Select (Glob 101 [(Select (Pw 2 [(Pw 69 [Img])]) MaskE FalseC)]) MaskE Img)).
 Example majority_ok : accepts prog_majority = true.
 Proof. vm_compute. reflexivity. Qed.
 Example majority_restores : restores_outside prog_majority = true.
@@ -539,20 +509,20 @@ Proof. vm_compute. reflexivity. Qed.
 (* remove (8 DAG nodes, 10 as a tree):  Select (Glob table_lookup [Select (Pw copy [Pw astype [Img]]) (MaskE) (FalseC)]) (MaskE) (Img) *)
 Definition prog_remove : prog :=
   ([],
-   (Select (Glob 95 [(Select (Pw 2 [(Pw 69 [Img])]) MaskE FalseC)]) MaskE Img)).
+   (Select (Glob 101 [(Select (Pw 2 [(Pw 69 [Img])]) MaskE FalseC)]) MaskE Img)).
 Example remove_ok : accepts prog_remove = true.
 Proof. vm_compute. reflexivity. Qed.
 Example remove_restores : restores_outside prog_remove = true.
 Proof. vm_compute. reflexivity. Qed.
 
-(* spur (24 DAG nodes, 134 as a tree):  Select (Select (Select (Img) (Glob index_set [Glob loop:index_i [Glob len [Glob unpack0 [Glob prepare_for_index_lookup [Select (Pw copy [Pw astype [Img]]) (MaskE) (FalseC)]]]; Glob unpack0 [Glob prepare_for_index_lookup [Select (Pw copy [Pw astype [Img]]) (MaskE) (FalseC)]]; Glob unpack1 [Glob prepare_for_index_lookup [Select (Pw copy [Pw astype [Img]]) (MaskE) (FalseC)]]; Glob unpack2 [Glob prepare_for_index_lookup [Select (Pw copy [Pw astype [Img]]) (MaskE) (FalseC)]]]; Glob loop:index_j [Glob len [Glob unpack0 [Glob prepare_for_index_lookup [Select (Pw copy [Pw astype [Img]]) (MaskE) (False ... *)
+(* spur (20 DAG nodes, 81 as a tree):  Select (Select (Img) (Glob index_set [Glob loop:index_i [Select (Glob len [Glob unpack0 [Glob prepare_for_index_lookup [Select (Pw copy [Pw astype [Img]]) (MaskE) (FalseC)]]]) (Const<is>) (Const<$iterations>); Glob unpack0 [Glob prepare_for_index_lookup [Select (Pw copy [Pw astype [Img]]) (MaskE) (FalseC)]]; Glob unpack1 [Glob prepare_for_index_lookup [Select (Pw copy [Pw astype [Img]]) (MaskE) (FalseC)]]; Glob unpack2 [Glob prepare_for_index_lookup [Select (Pw copy [Pw astype [Img]]) (MaskE) (FalseC)]]]; Glob loop:index_j [Select (Glob len [Glob unpack0 [Glob prepare_for_index_lookup [Select  ... *)
 Definition prog_spur : prog :=
-  ([(Glob 98 [(Select (Pw 2 [(Pw 69 [Img])]) MaskE FalseC)]);
+  ([(Glob 104 [(Select (Pw 2 [(Pw 69 [Img])]) MaskE FalseC)]);
     (Glob 22 [(Ref 0)]);
-    (Glob 67 [(Ref 1)]);
+    (Select (Glob 67 [(Ref 1)]) (Const 11) (Const 12));
     (Glob 20 [(Ref 0)]);
     (Glob 84 [(Ref 0)])],
-   (Select (Select (Select Img (Glob 96 [(Glob 97 [(Ref 2); (Ref 1); (Ref 3); (Ref 4)]); (Glob 99 [(Ref 2); (Ref 1); (Ref 3); (Ref 4)])]) (Const 10)) MaskE Img) (Const 9) (Select (Select Img (Glob 96 [(Glob 97 [(Ref 1); (Ref 3); (Ref 4)]); (Glob 99 [(Ref 1); (Ref 3); (Ref 4)])]) (Const 10)) MaskE Img))).
+   (Select (Select Img (Glob 102 [(Glob 103 [(Ref 2); (Ref 1); (Ref 3); (Ref 4)]); (Glob 105 [(Ref 2); (Ref 1); (Ref 3); (Ref 4)])]) (Const 13)) MaskE Img)).
 Example spur_ok : accepts prog_spur = true.
 Proof. vm_compute. reflexivity. Qed.
 Example spur_restores : restores_outside prog_spur = true.
@@ -561,61 +531,70 @@ Proof. vm_compute. reflexivity. Qed.
 (* thicken (8 DAG nodes, 10 as a tree):  Select (Glob table_lookup [Select (Pw copy [Pw astype [Img]]) (MaskE) (FalseC)]) (MaskE) (Img) *)
 Definition prog_thicken : prog :=
   ([],
-   (Select (Glob 95 [(Select (Pw 2 [(Pw 69 [Img])]) MaskE FalseC)]) MaskE Img)).
+   (Select (Glob 101 [(Select (Pw 2 [(Pw 69 [Img])]) MaskE FalseC)]) MaskE Img)).
 Example thicken_ok : accepts prog_thicken = true.
 Proof. vm_compute. reflexivity. Qed.
 Example thicken_restores : restores_outside prog_thicken = true.
 Proof. vm_compute. reflexivity. Qed.
 
-(* thin (23 DAG nodes, 120 as a tree):  Select (Select (Select (Img) (Glob index_set [Glob loop:index_i [Glob len [Glob unpack0 [Glob prepare_for_index_lookup [Select (Pw copy [Img]) (MaskE) (FalseC)]]]; Glob unpack0 [Glob prepare_for_index_lookup [Select (Pw copy [Img]) (MaskE) (FalseC)]]; Glob unpack1 [Glob prepare_for_index_lookup [Select (Pw copy [Img]) (MaskE) (FalseC)]]; Glob unpack2 [Glob prepare_for_index_lookup [Select (Pw copy [Img]) (MaskE) (FalseC)]]]; Glob loop:index_j [Glob len [Glob unpack0 [Glob prepare_for_index_lookup [Select (Pw copy [Img]) (MaskE) (FalseC)]]]; Glob unpack0 [Glob prepare_for_index_lookup [Select ( ... *)
+(* thin (19 DAG nodes, 73 as a tree):  Select (Select (Img) (Glob index_set [Glob loop:index_i [Select (Glob len [Glob unpack0 [Glob prepare_for_index_lookup [Select (Pw copy [Img]) (MaskE) (FalseC)]]]) (Const<is>) (Const<$iterations>); Glob unpack0 [Glob prepare_for_index_lookup [Select (Pw copy [Img]) (MaskE) (FalseC)]]; Glob unpack1 [Glob prepare_for_index_lookup [Select (Pw copy [Img]) (MaskE) (FalseC)]]; Glob unpack2 [Glob prepare_for_index_lookup [Select (Pw copy [Img]) (MaskE) (FalseC)]]]; Glob loop:index_j [Select (Glob len [Glob unpack0 [Glob prepare_for_index_lookup [Select (Pw copy [Img]) (MaskE) (FalseC)]]]) (Const<is>) ... *)
 Definition prog_thin : prog :=
-  ([(Glob 98 [(Select (Pw 2 [Img]) MaskE FalseC)]);
+  ([(Glob 104 [(Select (Pw 2 [Img]) MaskE FalseC)]);
     (Glob 22 [(Ref 0)]);
-    (Glob 67 [(Ref 1)]);
+    (Select (Glob 67 [(Ref 1)]) (Const 11) (Const 12));
     (Glob 20 [(Ref 0)]);
     (Glob 84 [(Ref 0)])],
-   (Select (Select (Select Img (Glob 96 [(Glob 97 [(Ref 2); (Ref 1); (Ref 3); (Ref 4)]); (Glob 99 [(Ref 2); (Ref 1); (Ref 3); (Ref 4)])]) (Const 10)) MaskE Img) (Const 9) (Select (Select Img (Glob 96 [(Glob 97 [(Ref 1); (Ref 3); (Ref 4)]); (Glob 99 [(Ref 1); (Ref 3); (Ref 4)])]) (Const 10)) MaskE Img))).
+   (Select (Select Img (Glob 102 [(Glob 103 [(Ref 2); (Ref 1); (Ref 3); (Ref 4)]); (Glob 105 [(Ref 2); (Ref 1); (Ref 3); (Ref 4)])]) (Const 13)) MaskE Img)).
 Example thin_ok : accepts prog_thin = true.
 Proof. vm_compute. reflexivity. Qed.
 Example thin_restores : restores_outside prog_thin = true.
 Proof. vm_compute. reflexivity. Qed.
 
-(* skeletonize (30 DAG nodes, 167 as a tree):  Select (Select (Pw astype [Glob skeletonize_loop [Pw ascontiguousarray [Pw copy [Select (Pw copy [Pw astype [Img]]) (MaskE) (FalseC)]]; Pw ascontiguousarray [Glob index [Pw copy [Select (Pw copy [Pw astype [Img]]) (MaskE) (FalseC)]]]; Pw ascontiguousarray [Glob index [Pw copy [Select (Pw copy [Pw astype [Img]]) (MaskE) (FalseC)]]]; Pw ascontiguousarray [Glob lexsort [Glob gather [Select (Const<permutation(..)>) (Select (Pw copy [Pw astype [Img]]) (MaskE) (FalseC)) (FalseC); Select (Pw copy [Pw astype [Img]]) (MaskE) (FalseC)]; Glob gather [Select (Glob table_lookup [Select (Pw copy [Pw astype  ... *)
+(* skeletonize (26 DAG nodes, 89 as a tree):  Select (Pw astype [Glob skeletonize_loop [Pw ascontiguousarray [Pw copy [Select (Pw copy [Pw astype [Img]]) (MaskE) (FalseC)]]; Pw ascontiguousarray [Glob index [Pw copy [Select (Pw copy [Pw astype [Img]]) (MaskE) (FalseC)]]]; Pw ascontiguousarray [Glob index [Pw copy [Select (Pw copy [Pw astype [Img]]) (MaskE) (FalseC)]]]; Pw ascontiguousarray [Glob lexsort [Glob gather [Select (Const<permutation(..)>) (Select (Pw copy [Pw astype [Img]]) (MaskE) (FalseC)) (FalseC); Select (Pw copy [Pw astype [Img]]) (MaskE) (FalseC)]; Glob gather [Select (Glob table_lookup [Select (Pw copy [Pw astype [Img]])  ... *)
 Definition prog_skeletonize : prog :=
   ([(Select (Pw 2 [(Pw 69 [Img])]) MaskE FalseC);
     (Pw 2 [(Ref 0)]);
-    (Pw 10 [(Ref 1)]);
-    (Glob 19 [(Ref 1)]);
-    (Pw 10 [(Ref 3)]);
-    (Glob 6 [(Select (Const 11) (Ref 0) FalseC); (Ref 0)]);
-    (Glob 6 [(Select (Glob 95 [(Ref 0)]) (Ref 0) FalseC); (Ref 0)])],
-   (Select (Select (Pw 69 [(Glob 100 [(Ref 2); (Ref 4); (Ref 4); (Pw 10 [(Glob 87 [(Ref 5); (Ref 6); (Glob 19 [(Glob 101 [(Ref 0)]); (Ref 1)])])])])]) MaskE Img) (Const 9) (Select (Pw 69 [(Glob 100 [(Ref 2); (Ref 4); (Ref 4); (Pw 10 [(Glob 87 [(Ref 5); (Ref 6); (Ref 3)])])])]) MaskE Img))).
+    (Pw 10 [(Glob 19 [(Ref 1)])])],
+   (Select (Pw 69 [(Glob 106 [(Pw 10 [(Ref 1)]); (Ref 2); (Ref 2); (Pw 10 [(Glob 87 [(Glob 6 [(Select (Const 14) (Ref 0) FalseC); (Ref 0)]); (Glob 6 [(Select (Glob 101 [(Ref 0)]) (Ref 0) FalseC); (Ref 0)]); (Glob 19 [(Select (Glob 97 [(Ref 0)]) (Const 11) (Const 15)); (Ref 1)])])])])]) MaskE Img)).
 Example skeletonize_ok : accepts prog_skeletonize = true.
 Proof. vm_compute. reflexivity. Qed.
 Example skeletonize_restores : restores_outside prog_skeletonize = true.
 Proof. vm_compute. reflexivity. Qed.
 
-(* regional_maximum_ties_are_ok (8 DAG nodes, 10 as a tree):  Select (Select (Pw not [LocS 0 has_greater_structure_neighbour (Img)]) (ErodeS 0 (MaskE)) (FalseC)) (MaskE) (FalseC) *)
-Definition prog_regional_maximum_ties_are_ok : prog :=
+(* masked_convolution (4 DAG nodes, 4 as a tree):  MConv kernel (Pw ascontiguousarray [Img]) (MaskE) *)
+Definition prog_masked_convolution : prog :=
   ([],
-   (Select (Select (Pw 1 [(LocS 0 12 Img)]) (ErodeS 0 MaskE) FalseC) MaskE FalseC)).
-Example regional_maximum_ties_are_ok_ok : accepts prog_regional_maximum_ties_are_ok = true.
+   (MConv 58 (Pw 10 [Img]) MaskE)).
+Example masked_convolution_ok : accepts prog_masked_convolution = true.
 Proof. vm_compute. reflexivity. Qed.
 
-(* regional_maximum_struct: the term of regional_maximum with a symbolic (abstract) structure s *)
+(* branchings (9 DAG nodes, 9 as a tree):  Glob index [Pw astype [Glob convolve [Select (Pw copy [Pw astype [Img]]) (MaskE) (FalseC)]]] *)
+Definition prog_branchings : prog :=
+  ([],
+   (Glob 19 [(Pw 69 [(Glob 56 [(Select (Pw 2 [(Pw 69 [Img])]) MaskE FalseC)])])])).
+Example branchings_ok : accepts prog_branchings = true.
+Proof. vm_compute. reflexivity. Qed.
+
+(* regional_maximum_struct: the program of regional_maximum with a symbolic (abstract) structure s *)
 Definition prog_regional_maximum_struct (s : nat) : prog :=
-  ([(Select (Select (Pw 1 [(LocS s 12 Img)]) (ErodeS s MaskE) FalseC) MaskE FalseC)],
-   (Select (Glob 13 [(Ref 0)]) (Glob 11 [(Ref 0)]) (Select (Select (Pw 1 [(LocS s 12 Img)]) (ErodeS s MaskE) FalseC) MaskE FalseC))).
+  ([(Select (Select (Pw 1 [(LocS s 12 Img)]) (ErodeS s MaskE) FalseC) (Select (Const 4) MaskE FalseC) FalseC);
+    (Pw 69 [(Glob 19 [(Glob 21 [(Glob 97 [(Ref 0)])])])]);
+    (Glob 99 [(Glob 76 [(Ref 1)])]);
+    (Glob 39 [(Ref 0)]);
+    (Glob 19 [(Pw 59 [(Glob 95 [(Glob 96 [(Ref 1); (Pw 41 [(Pw 69 [(Glob 98 [(Ref 2)])]); (Pw 100 [(Ref 2)])])]); (Glob 22 [(Ref 3)]); (Pw 31 [(Glob 55 [(Glob 20 [(Ref 3)])])])])])])],
+   (Select (Select (Glob 75 [(Ref 4); (Ref 4)]) (Glob 11 [(Ref 0)]) (Select (Select (Pw 1 [(LocS s 12 Img)]) (ErodeS s MaskE) FalseC) (Select (Const 4) MaskE FalseC) FalseC)) (Const 10) (Select (Select (Pw 1 [(LocS s 12 Img)]) (ErodeS s MaskE) FalseC) (Select (Const 4) MaskE FalseC) FalseC))).
 Lemma regional_maximum_struct_ok : forall s, accepts (prog_regional_maximum_struct s) = true.
 Proof. intros s. unfold accepts, prog_regional_maximum_struct. cbn. rewrite ?PeanoNat.Nat.eqb_refl. cbn. reflexivity. Qed.
 
+(* NOT CLAIMED  life  (ignores its mask argument altogether): Glob table_lookup [Img] *)
+(* NOT CLAIMED  granulometry_filter  (normalises by image.max() over the whole image, like enhance_dark_holes (excluded by the property text)): Glob loop:selected_granules_image [Img; Pw sub [Glob max [Img]; Img]; MaskE] *)
 Definition listed_progs : list prog :=
-  [prog_median_filter; prog_grey_erosion; prog_grey_dilation; prog_opening; prog_closing; prog_white_tophat; prog_black_tophat; prog_openlines; prog_sobel; prog_hsobel; prog_vsobel; prog_prewitt; prog_hprewitt; prog_vprewitt; prog_roberts; prog_canny; prog_laplacian_of_gaussian; prog_variance_transform; prog_circular_average_filter; prog_smooth_with_function_and_mask; prog_stretch; prog_fit_polynomial; prog_circular_hough; prog_convex_hull_transform; prog_regional_maximum; prog_bridge; prog_clean; prog_diag; prog_endpoints; prog_branchpoints; prog_fill; prog_fill4; prog_hbreak; prog_vbreak; prog_majority; prog_remove; prog_spur; prog_thicken; prog_thin; prog_skeletonize].
+  [prog_median_filter; prog_grey_erosion; prog_grey_dilation; prog_opening; prog_closing; prog_white_tophat; prog_black_tophat; prog_openlines; prog_sobel; prog_hsobel; prog_vsobel; prog_prewitt; prog_hprewitt; prog_vprewitt; prog_roberts; prog_canny; prog_laplacian_of_gaussian; prog_variance_transform; prog_circular_average_filter; prog_smooth_with_function_and_mask; prog_stretch; prog_fit_polynomial; prog_circular_hough; prog_convex_hull_transform; prog_regional_maximum; prog_bridge; prog_clean; prog_diag; prog_endpoints; prog_branchpoints; prog_fill; prog_fill4; prog_hbreak; prog_vbreak; prog_majority; prog_remove; prog_spur; prog_thicken; prog_thin; prog_skeletonize; prog_masked_convolution; prog_branchings].
 Definition binary_progs : list prog :=
   [prog_bridge; prog_clean; prog_diag; prog_endpoints; prog_branchpoints; prog_fill; prog_fill4; prog_hbreak; prog_vbreak; prog_majority; prog_remove; prog_spur; prog_thicken; prog_thin; prog_skeletonize].
 Lemma listed_accepted : forallb accepts listed_progs = true.
 Proof. vm_compute. reflexivity. Qed.
 Lemma binary_restore : forallb restores_outside binary_progs = true.
 Proof. vm_compute. reflexivity. Qed.
-Lemma listed_count : (length listed_progs, length binary_progs) = (40, 15)%nat.
+Lemma listed_count : (length listed_progs, length binary_progs) = (42, 15)%nat.
 Proof. reflexivity. Qed.
